@@ -24,6 +24,10 @@ use crate::p2p::{P2p, P2pError};
 use crate::store::{Store, StoreError};
 use crate::utils::{FusedReusableFuture, OneshotSenderExt, TimeExt};
 
+#[cfg(eigerco_lumina_verif)]
+#[path = "syncer_verif_hooks.rs"]
+pub mod verif_hooks;
+
 type Result<T, E = SyncerError> = std::result::Result<T, E>;
 
 const TRY_INIT_BACKOFF_MAX_INTERVAL: Duration = Duration::from_secs(60);
